@@ -168,6 +168,13 @@ def filter_clauses(ctx):
             'any([%(r)s[_k] == _v for _o in %(e)s for (_k, _v) in _o.items()]) or '
             'any([%(r)s[_k2] != _v2 for _o2 in %(n)s for (_k2, _v2) in _o2.items()])']
     ok = value is not None and any(match_expr(pt % dict(r=rowp, e=eq, n=ne), value) is not None for pt in pats)
+    if not ok and not isinstance(clo.node, ast.Lambda) and len(body) == 3:
+        # the same disjunction unrolled: two loop nests that answer True at the first hit, then False
+        l1 = match_stmt('for _o in %(e)s:\n    for (_k, _v) in _o.items():\n        if %(r)s[_k] == _v:\n            return True'
+                        % dict(r=rowp, e=eq), body[0])
+        l2 = match_stmt('for _o in %(n)s:\n    for (_k, _v) in _o.items():\n        if %(r)s[_k] != _v:\n            return True'
+                        % dict(r=rowp, n=ne), body[1])
+        ok = l1 is not None and l2 is not None and match_stmt('return False', body[2]) is not None
     run.check(ok, 'FLT', clo.where, clo.qualname, 'any(row[k] == v ...equals) or any(row[k] != v ...not_equals)',
               'the equals / not_equals condition is not "any equal in equals, or any different in not_equals"')
 
@@ -558,6 +565,14 @@ def unpivot_clauses(ctx):
                                     "bool(__R.fullmatch(%s['name'])) is %s", "bool(__R.fullmatch(%s['name'])) == %s"):
                             e1 = match_expr(pt_ % (vs, 'True'), ps)
                             e2 = match_expr(pt_ % (vr, 'False'), pr_)
+                            if e1 is not None and e2 is not None and u(e1['__R']) == u(e2['__R']) and \
+                                    match_expr("re.compile(%s['name'])" % spec, e1['__R']) is not None:
+                                ok = True
+                        # ... or the bare test and its negation
+                        for pa_, pb_ in (("__R.fullmatch(%s['name']) is not None", "__R.fullmatch(%s['name']) is None"),
+                                         ("__R.fullmatch(%s['name'])", "not __R.fullmatch(%s['name'])")):
+                            e1 = match_expr(pa_ % vs, ps)
+                            e2 = match_expr(pb_ % vr, pr_)
                             if e1 is not None and e2 is not None and u(e1['__R']) == u(e2['__R']) and \
                                     match_expr("re.compile(%s['name'])" % spec, e1['__R']) is not None:
                                 ok = True
